@@ -2,6 +2,9 @@ import GqlProofs.ExecBasic
 import GqlProofs.ExecConforms
 import GqlProofs.ExecChecker
 import GqlProofs.ExecExample
+import GqlProofs.ExecErr
+import GqlProofs.ExecRoot
+import GqlProofs.ExecLog
 /-! # C04 — Responses are well-formed for schema and query whatever resolvers return
 
 Property theorems only. The theorems are about `GqlModel.Exec.execute` (the execution algorithm as this library
@@ -72,6 +75,155 @@ theorem checker_sound (s : Schema) (doc : Document) (opName : String) (inputs : 
       FieldsConform c root (rootGroups c root sel) data :=
   conformsData_sound s doc opName inputs data h
 
+/-- data holds exactly the selected response keys whose field the root type defines, in the order of the groups -/
+theorem data_keys_are_selected_keys (s : Schema) (doc : Document) (opName : String) (inputs : Vars) (w : World) (fuel : Nat)
+    (data : List (String × JVal)) (errs : List (Path × Bool)) (log : List LogEntry) (kf : List Path)
+    (h : execute s doc opName inputs w fuel = .result (some data) errs log kf) :
+    ∃ c root sel, requestCtx s doc opName inputs w = some (c, root, sel) ∧
+      data.map (·.1) = ((rootGroups c root sel).filter (resolvable c root)).map (·.1) := by
+  obtain ⟨c, root, sel, r, st, hc, hr, -, -, -, hd⟩ := execute_result h
+  refine ⟨c, root, sel, hc, ?_⟩
+  rcases hd with ⟨fs, rfl, hfs⟩ | ⟨-, hnone⟩
+  · cases hfs
+    simpa using execGroups_ok_keys c fuel _ _ _ _ _ _ _ _ _ hr
+  · cases hnone
+
+/-! ## Errors: kept, addressed to nulls -/
+
+/-- Errors recorded earlier are kept (and so are log entries): every call of the four functions of the algorithm only
+PREPENDS to the error list and to the invocation log of the state it was given. -/
+theorem errors_only_grow (c : Ctx) (fuel : Nat) :
+    (∀ dfr rt src path groups acc st r st', execGroups c fuel dfr rt src path groups acc st = (r, st') →
+      st.errs <:+ st'.errs ∧ st.log <:+ st'.log) ∧
+    (∀ dfr rt src p fd nodes st r st', execField c fuel dfr rt src p fd nodes st = (r, st') →
+      st.errs <:+ st'.errs ∧ st.log <:+ st'.log) ∧
+    (∀ dfr t rt fname nodes p v st r st', complete c fuel dfr t rt fname nodes p v st = (r, st') →
+      st.errs <:+ st'.errs ∧ st.log <:+ st'.log) ∧
+    (∀ dfr item rt fname nodes p xs i acc st r st',
+      completeItems c fuel dfr item rt fname nodes p xs i acc st = (r, st') →
+      st.errs <:+ st'.errs ∧ st.log <:+ st'.log) := by
+  refine ⟨?_, ?_, ?_, ?_⟩
+  · intro dfr rt src path groups acc st r st' h
+    obtain ⟨n1, h1, -⟩ := (errP c fuel).groups _ _ _ _ _ _ _ _ _ h
+    obtain ⟨n2, h2, -⟩ := (logP c fuel).groups _ _ _ _ _ _ _ _ _ h
+    exact ⟨⟨n1, h1.symm⟩, ⟨n2, h2.symm⟩⟩
+  · intro dfr rt src p fd nodes st r st' h
+    obtain ⟨n1, h1, -⟩ := (errP c fuel).field _ _ _ _ _ _ _ _ _ h
+    obtain ⟨n2, h2, -⟩ := (logP c fuel).field _ _ _ _ _ _ _ _ _ h
+    exact ⟨⟨n1, h1.symm⟩, ⟨n2, h2.symm⟩⟩
+  · intro dfr t rt fname nodes p v st r st' h
+    obtain ⟨n1, h1, -⟩ := (errP c fuel).complete _ _ _ _ _ _ _ _ _ _ h
+    obtain ⟨n2, h2, -⟩ := (logP c fuel).complete _ _ _ _ _ _ _ _ _ _ h
+    exact ⟨⟨n1, h1.symm⟩, ⟨n2, h2.symm⟩⟩
+  · intro dfr item rt fname nodes p xs i acc st r st' h
+    obtain ⟨n1, h1, -⟩ := (errP c fuel).items _ _ _ _ _ _ _ _ _ _ _ _ h
+    obtain ⟨n2, h2, -⟩ := (logP c fuel).items _ _ _ _ _ _ _ _ _ _ _ _ h
+    exact ⟨⟨n1, h1.symm⟩, ⟨n2, h2.symm⟩⟩
+
+/-- A field whose resolver fails (error return, value together with an error, panic) contributes `null` — never a
+value — and exactly one error, carrying exactly the field's response path; the failure propagates (`fail`) iff the
+field's type is non-null. -/
+theorem failed_field_is_null_with_error_path (c : Ctx) (fuel : Nat) (dfr : Bool) (rt : String) (src : GoVal) (p : Path)
+    (fd : FieldDefS) (nodes : List FieldNode) (st st' : St) (r : Res JVal)
+    (hn : fd.name ≠ "__typename") (hfail : c.world.outcome src fd.name = .fail)
+    (h : execField c (fuel + 1) dfr rt src p fd nodes st = (r, st')) :
+    st'.errs = (p, dfr) :: st.errs ∧
+      ((fd.type.isNonNull = true ∧ r = .fail) ∨ (fd.type.isNonNull = false ∧ r = .ok .null)) := by
+  have hn' : (fd.name == "__typename") = false := by simpa using hn
+  simp only [execField, hn', Bool.false_eq_true, if_false, hfail] at h
+  split at h
+  · rename_i hnn
+    simp only [Prod.mk.injEq] at h
+    exact ⟨by rw [← h.2]; rfl, Or.inl ⟨hnn, h.1.symm⟩⟩
+  · rename_i hnn
+    simp only [Prod.mk.injEq] at h
+    exact ⟨by rw [← h.2]; rfl, Or.inr ⟨by simpa using hnn, h.1.symm⟩⟩
+
+/-- A field whose value cannot be completed (wrong kind for a list / object / leaf position, null under non-null, failing
+thunk, non-possible runtime type, `isTypeOf` says no, a failure propagated from below) contributes `null` or
+propagates; in both cases at least one new error was recorded, and every new error lies at or below the field's path.
+(`st0` is the state after the invocation has been logged.) -/
+theorem failed_completion_is_null_with_error (c : Ctx) (fuel : Nat) (dfr : Bool) (rt : String) (src : GoVal) (p : Path)
+    (fd : FieldDefS) (nodes : List FieldNode) (st st' : St) (r : Res JVal) (v : GoVal)
+    (hn : fd.name ≠ "__typename") (hv : c.world.outcome src fd.name = .value v)
+    (h : execField c (fuel + 1) dfr rt src p fd nodes st = (r, st')) :
+    ∃ st0 r1 st1, st0.errs = st.errs ∧ complete c fuel dfr fd.type rt fd.name nodes p v st0 = (r1, st1) ∧
+      (∀ j, r1 = .ok j → r = .ok j ∧ st' = st1) ∧
+      (r1 = .fail →
+        ((fd.type.isNonNull = true ∧ r = .fail) ∨ (fd.type.isNonNull = false ∧ r = .ok .null)) ∧
+        ∃ new, new ≠ [] ∧ st'.errs = new ++ st.errs ∧ ∀ e, e ∈ new → p <+: e.1) := by
+  have hn' : (fd.name == "__typename") = false := by simpa using hn
+  simp only [execField, hn', Bool.false_eq_true, if_false, hv] at h
+  generalize hst0 : ({ st with log := _ :: st.log } : St) = st0 at h
+  have h0 : st0.errs = st.errs := by rw [← hst0]
+  rcases hc : complete c fuel dfr fd.type rt fd.name nodes p v st0 with ⟨r1, st1⟩
+  rw [hc] at h
+  refine ⟨st0, r1, st1, h0, hc, ?_, ?_⟩
+  · intro j hj
+    subst hj
+    simp only [Prod.mk.injEq] at h
+    exact ⟨h.1.symm, h.2.symm⟩
+  · intro hr
+    subst hr
+    obtain ⟨new, hl, hfail, -⟩ := (errP c fuel).complete _ _ _ _ _ _ _ _ _ _ hc
+    obtain ⟨hne, hall⟩ := hfail rfl
+    rw [h0] at hl
+    simp only at h
+    split at h
+    · rename_i hnn
+      simp only [Prod.mk.injEq] at h
+      exact ⟨Or.inl ⟨hnn, h.1.symm⟩, new, hne, by rw [← h.2, hl], hall⟩
+    · rename_i hnn
+      simp only [Prod.mk.injEq] at h
+      exact ⟨Or.inr ⟨by simpa using hnn, h.1.symm⟩, new, hne, by rw [← h.2, hl], hall⟩
+
+/-- Response level: every error of a response with data addresses a `null`: some prefix of the error's path is a
+position of `data` that holds `null` (the failed field itself, or the nearest nullable ancestor the null moved to). -/
+theorem errors_address_nulls (s : Schema) (doc : Document) (opName : String) (inputs : Vars) (w : World) (fuel : Nat)
+    (data : List (String × JVal)) (errs : List (Path × Bool)) (log : List LogEntry) (kf : List Path)
+    (h : execute s doc opName inputs w fuel = .result (some data) errs log kf) :
+    ∀ e, e ∈ errs → ∃ rel, rel <+: e.1 ∧ ValAt (.obj data) rel .null := by
+  obtain ⟨c, root, sel, r, st, hc, hr, herrs, -, -, hd⟩ := execute_result h
+  rcases hd with ⟨fs, rfl, hfs⟩ | ⟨-, hnone⟩
+  · cases hfs
+    obtain ⟨new, hl, -, hok⟩ := (errP c fuel).groups _ _ _ _ _ _ _ _ _ hr
+    intro e he
+    rw [herrs, List.mem_reverse, hl] at he
+    simp only [St.empty, List.append_nil] at he
+    obtain ⟨k, x, hkx, rel, hp, hv⟩ := (hok data rfl).2 e he
+    exact ⟨.key k :: rel, by simpa using hp, .key hkx hv⟩
+  · cases hnone
+
+/-- `data` is absent iff the root selection set failed… -/
+theorem data_none_iff_root_failure (s : Schema) (doc : Document) (opName : String) (inputs : Vars) (w : World) (fuel : Nat)
+    (data : Option (List (String × JVal))) (errs : List (Path × Bool)) (log : List LogEntry) (kf : List Path)
+    (h : execute s doc opName inputs w fuel = .result data errs log kf) :
+    ∃ c root sel, requestCtx s doc opName inputs w = some (c, root, sel) ∧
+      (data = none ↔
+        (execGroups c fuel false root .nil [] (rootGroups c root sel) [] St.empty).1 = .fail) := by
+  obtain ⟨c, root, sel, r, st, hc, hr, -, -, -, hd⟩ := execute_result h
+  refine ⟨c, root, sel, hc, ?_⟩
+  rw [hr]
+  rcases hd with ⟨fs, rfl, rfl⟩ | ⟨rfl, rfl⟩ <;> simp
+
+/-- …and that happens only when the null had nowhere else to go: a top-level field of NON-NULL type failed (its resolver
+or its completion, possibly a failure propagated from a non-null chain below it), and the last error of the response
+lies at or below that field. -/
+theorem data_none_has_nonnull_root_cause (s : Schema) (doc : Document) (opName : String) (inputs : Vars) (w : World)
+    (fuel : Nat) (errs : List (Path × Bool)) (log : List LogEntry) (kf : List Path)
+    (h : execute s doc opName inputs w fuel = .result none errs log kf) :
+    ∃ c root sel, requestCtx s doc opName inputs w = some (c, root, sel) ∧
+      ∃ k nodes node fd q d, (k, nodes) ∈ rootGroups c root sel ∧ nodes.head? = some node ∧
+        fieldDef? c.schema root node.name = some fd ∧ fd.type.isNonNull = true ∧
+        errs.getLast? = some (q, d) ∧ [PathSeg.key k] <+: q := by
+  obtain ⟨c, root, sel, r, st, hc, hr, herrs, -, -, hd⟩ := execute_result h
+  refine ⟨c, root, sel, hc, ?_⟩
+  rcases hd with ⟨fs, -, hfs⟩ | ⟨rfl, -⟩
+  · cases hfs
+  · obtain ⟨k, nodes, node, fd, q, d, h1, h2, h3, h4, h5, h6⟩ := execGroups_fail_cause c fuel _ _ _ _ _ _ _ _ hr
+    refine ⟨k, nodes, node, fd, q, d, h1, h2, h3, h4, ?_, by simpa using h6⟩
+    rw [herrs, List.getLast?_reverse]; exact h5
+
 /-! ## Non-vacuity: a concrete request (GqlProofs/ExecExample.lean) -/
 
 open Ex in
@@ -95,5 +247,16 @@ example : conformsData schema doc "Q" varsF [("a", .null)] = false
     ∧ conformsData schema doc "Q" varsF [("b", .int 1)] = false
     ∧ conformsData schema doc "Q" varsF [("b", .list [.int 1, .null]), ("w", .obj [("x", .str "s")])] = true := by
   decide +kernel
+
+open Ex in
+/-- `data_none_has_nonnull_root_cause` is not vacuous: the resolver of the non-null top-level field `a` fails ⇒ no data,
+one error at `a`, and nothing after `a` was resolved -/
+example : (let r := execute schema doc "Q" varsF { world with rootFields := [("a", .fail)] } 50
+    ((obsData r).isNone, obsErrs r, obsLog r)) = (true, ["a"], ["a"]) := by decide +kernel
+
+open Ex in
+/-- `errors_address_nulls` on the example: the error at `w.x` addresses the null at `w` -/
+example : ((obsData (execute schema doc "Q" varsF world 50)).map
+    (fun d => (JVal.lookup d "w").map JVal.isNull)) = some (some true) := by decide +kernel
 
 end GqlModel.Exec
